@@ -13,6 +13,7 @@ class Hist:
     """one scenario: graph + history; records ground truth at each build step"""
     def __init__(s, sid, g):
         s.sid = sid; s.g = g; s.sources = dict(g.sources); s.steps = []; s.header = engine.scenario_header(sid, g)
+        s.g0 = copy.deepcopy(g)
         s.tags = set()
     def text(s):
         return '\n'.join(s.header + [st.line for st in s.steps] + ['end']) + '\n'
@@ -21,7 +22,22 @@ class Hist:
         s.sources[path] = content
         s.add(Step('edit', 'step edit %s %s' % (hx(path), hx(content)), path=path))
     def rewrite_manifest(s):
-        s.add(Step('manifest', 'step edit %s %s' % (hx('build.ninja'), hx(s.g.manifest()))))
+        s.add(Step('manifest', 'step edit %s %s' % (hx('build.ninja'), hx(s.g.manifest())), g_after=copy.deepcopy(s.g)))
+    def transformed(s, sid, f):
+        """the same history on the graph f(g) (f applied to every snapshot)"""
+        h2 = Hist(sid, f(s.g0))
+        for st in s.steps:
+            if st.kind == 'manifest':
+                h2.add(Step('manifest', 'step edit %s %s' % (hx('build.ninja'), hx(f(st.g_after).manifest())), g_after=f(st.g_after)))
+            elif st.kind == 'sethidden':
+                g2 = f(st.g_after); e2 = [e for e in g2.edges if e.idx == st.edge][0]
+                h2.add(Step('sethidden', 'step sethidden %s %s' % (hx(e2.out0), ' '.join(hx(x) for x in e2.hidden)), edge=st.edge, g_after=g2))
+            elif st.kind == 'build':
+                d = dict(st.__dict__); d['g'] = f(st.g); d.pop('kind'); d.pop('line')
+                h2.add(Step('build', st.line, **d))
+            else:
+                h2.add(st)
+        return h2
     def build(s, rnd, targets=None, **kw):
         g = s.g
         line = engine.build_step(targets=targets or (), **kw)
@@ -38,8 +54,9 @@ def default_targets(g):
 def rand_sched(rnd, n): return [rnd.randrange(0, 8) for _ in range(n)]
 
 def gen_history(rnd, sid, nedges, nsteps, feat=None, faults=0.0, wf_reads=True, repeat_builds=True, partial_targets=0.3,
-                mutate=True, tokens=0.25):
+                mutate=True, tokens=0.25, graph_hook=None, no_dd_mutation=False):
     g = engine.gen_graph(rnd, nedges, feat, wf_reads)
+    if graph_hook: g = graph_hook(g)
     h = Hist(sid, g)
     def do_build(fp):
         ne = [e for e in g.edges if not e.phony]
@@ -83,12 +100,14 @@ def gen_history(rnd, sid, nedges, nsteps, feat=None, faults=0.0, wf_reads=True, 
                     e.hidden = [x for i, x in enumerate(e.hidden) if x not in e.hidden[:i]]
                 else:
                     e.hidden = rnd.sample(cand, min(len(cand), rnd.randrange(0, 3)))
+                if e.dyndep and e.dyndep in g.dd_info and e.out0 in g.dd_info[e.dyndep]:
+                    e.hidden = e.hidden + [x for x in g.dd_info[e.dyndep][e.out0][1] if x not in e.hidden]   # dyndep-discovered inputs stay read
                 for hh in e.hidden:
                     if hh in prod and hh not in e.oo and wf_reads: e.oo.append(hh)
                 src = rnd.choice([x for x in e.exp if x in h.sources])
-                h.add(Step('sethidden', 'step sethidden %s %s' % (hx(e.out0), ' '.join(hx(x) for x in e.hidden)), edge=e.idx))
+                h.add(Step('sethidden', 'step sethidden %s %s' % (hx(e.out0), ' '.join(hx(x) for x in e.hidden)), edge=e.idx, g_after=copy.deepcopy(g)))
                 h.edit(src, '%s.%d' % (src, rnd.randrange(1000000)))
-        elif r < 0.91 and g.dd_info:
+        elif r < 0.91 and g.dd_info and not no_dd_mutation:
             # change what a dyndep file says (valid for the graph): add/remove a discovered input, flip restat
             dd = rnd.choice(sorted(g.dd_info)); info = g.dd_info[dd]
             cands = [o for o in sorted(info) if any(x in h.sources and not x.startswith('dd') for x in [y for ed in g.edges if ed.out0 == o for y in ed.exp])]
@@ -105,7 +124,7 @@ def gen_history(rnd, sid, nedges, nsteps, feat=None, faults=0.0, wf_reads=True, 
             e.hidden = [x for x in e.hidden if x not in info[out0][1]] + ii
             info[out0] = (io, ii, rs)
             text = engine.dd_text(info)
-            h.add(Step('sethidden', 'step sethidden %s %s' % (hx(e.out0), ' '.join(hx(x) for x in e.hidden)), edge=e.idx))
+            h.add(Step('sethidden', 'step sethidden %s %s' % (hx(e.out0), ' '.join(hx(x) for x in e.hidden)), edge=e.idx, g_after=copy.deepcopy(g)))
             if dd in g.ddtext:
                 g.ddtext[dd] = text
                 h.add(Step('setdd', 'step setdd %s %s' % (hx(dd), hx(text))))
@@ -414,3 +433,82 @@ def oracle_c17(h, st, b, prev=None):
             for o in b.started:
                 if o in cyc_edges: bad.append('command %s of the reported cycle was run' % o)
     return bad or None
+
+# ------------------------------------------------------------------ C11: dyndep pairs and invalid files
+def gen_dyndep_pair(rnd, sid):
+    """the same history on a graph with dyndep files and on the graph with that information inlined"""
+    feat = dict(dyndep=1.0, deps=0.15, generator=0.0)
+    a = gen_history(rnd, sid + '_dd', rnd.randrange(2, 8), rnd.randrange(1, 5), feat=feat, faults=0.1, tokens=0.0, no_dd_mutation=True)
+    b = a.transformed(sid + '_inl', engine.inline_dyndep)
+    return a, b
+
+def dd_validate(text, bound, other_outputs):
+    """independent reading of a dyndep file: returns None if valid for the statements bound to it, else a reason"""
+    lines = text.split('\n')
+    if text and not text.endswith('\n'): return 'no final newline'
+    lines = [l for l in lines[:-1]]
+    i = 0
+    while i < len(lines) and (not lines[i].strip() or lines[i].lstrip().startswith('#')): i += 1
+    if i >= len(lines) or lines[i].replace(' ', '') not in ('ninja_dyndep_version=1', 'ninja_dyndep_version=1.0'): return 'version'
+    i += 1; seen = set()
+    while i < len(lines):
+        l = lines[i]; i += 1
+        if not l.strip() or l.lstrip().startswith('#'): continue
+        if l.startswith(' '): return 'unexpected indent'
+        if not l.startswith('build '): return 'not a build statement'
+        if ':' not in l: return 'no colon'
+        left, right = l[6:].split(':', 1)
+        lo = left.split('|')
+        outs = lo[0].split()
+        if len(outs) != 1 or len(lo) > 2: return 'explicit outputs'
+        imp_outs = lo[1].split() if len(lo) == 2 else []
+        if len(lo) == 2 and not imp_outs: return 'empty implicit outputs'
+        r = right.split('||')[0] if '||' in right else right
+        if '||' in right: return 'order-only'
+        rp = r.split('|')
+        if rp[0].split() != ['dyndep'] or len(rp) > 2: return 'rule/explicit inputs'
+        if len(rp) == 2 and not rp[1].split(): return 'empty implicit inputs'
+        if outs[0] not in bound: return 'statement for an output not bound to this file'
+        if outs[0] in seen: return 'duplicate statement'
+        seen.add(outs[0])
+        for o in imp_outs:
+            if o in other_outputs: return 'claims an output another statement produces'
+        while i < len(lines) and lines[i].startswith(' ') and lines[i].strip():
+            b = lines[i].strip(); i += 1
+            if not b.replace(' ', '').startswith('restat='): return 'binding other than restat'
+    if seen != set(bound): return 'missing statement'
+    return None
+
+def gen_dyndep_invalid(rnd, sid):
+    """a graph whose dyndep file (a source) is damaged in a way the reference validator rejects"""
+    g = engine.gen_graph(rnd, rnd.randrange(2, 7), dict(deps=0.0, generator=0.0, validations=0.0))
+    engine.add_dyndep(rnd, g, produced=False)
+    if not g.dd_info: return None
+    dd = sorted(g.dd_info)[0]; text = g.sources[dd]
+    bound = sorted(g.dd_info[dd]); others = [o for e in g.edges for o in e.outs]
+    kind = rnd.choice(['truncate', 'truncate', 'delete-line', 'dup-line', 'extra-stmt', 'claim-output', 'garbage', 'missing', 'no-version', 'valid'])
+    new = text
+    if kind == 'truncate': new = text[:rnd.randrange(0, len(text))]
+    elif kind == 'delete-line':
+        ls = text.split('\n'); k = rnd.randrange(len(ls) - 1); new = '\n'.join(ls[:k] + ls[k + 1:])
+    elif kind == 'dup-line':
+        ls = text.split('\n'); k = rnd.randrange(1, len(ls) - 1) if len(ls) > 2 else 0; new = '\n'.join(ls[:k + 1] + ls[k:])
+    elif kind == 'extra-stmt':
+        unbound = [e.out0 for e in g.edges if e.out0 not in bound and not e.phony]
+        new = text + 'build %s: dyndep\n' % (rnd.choice(unbound) if unbound and rnd.random() < 0.7 else 'nosuchoutput')
+    elif kind == 'claim-output':
+        ls = text.split('\n'); victim = rnd.choice([o for o in others if o not in bound] or ['zz'])
+        ls[1] = ls[1].replace(': dyndep', ' | %s: dyndep' % victim, 1) if ' | ' not in ls[1].split(':')[0] else ls[1].replace(':', ' %s:' % victim, 1)
+        new = '\n'.join(ls)
+    elif kind == 'garbage': new = text.replace('dyndep', rnd.choice(['dyndp', 'phony', '']), 1)
+    elif kind == 'no-version': new = '\n'.join(text.split('\n')[1:])
+    h = Hist(sid, g); h.dd_kind = kind
+    if kind == 'missing':
+        del g.sources[dd]; h = Hist(sid, g); h.dd_kind = kind; h.dd_reason = 'missing file'
+    else:
+        g.sources[dd] = new; h = Hist(sid, g); h.dd_kind = kind
+        h.dd_reason = dd_validate(new, bound, set(others))
+    # request a statement bound to the file so that it has to be loaded
+    h.dd_bound = bound
+    h.build(rnd, [rnd.choice(bound)], j=rnd.choice([1, 3]), k=1, sched=rand_sched(rnd, 2 * len(g.edges) + 2))
+    return h
